@@ -67,6 +67,16 @@ impl Definition {
             .any(|usage| span_contains(usage.span, tree, path, pos))
     }
 
+    /// The smallest span (of the definition itself or of one of its usages) that contains the position
+    fn smallest_span_containing(&self, tree: &ParseTree, path: &Path, pos: LineCol) -> Option<Span> {
+        self.location
+            .iter()
+            .chain(self.usages.iter())
+            .map(|l| l.span)
+            .filter(|span| span_contains(*span, tree, path, pos))
+            .min_by_key(|span| (span.len(), *span))
+    }
+
     pub fn try_get_usage_containing(
         &self,
         tree: &ParseTree,
@@ -183,9 +193,24 @@ impl Analysis {
         filter: F,
     ) -> Vec<(&DefinitionType, &Definition)> {
         let path = path.into();
+        // The definitions live in a hash map, so put them in a well-defined order: the most specific match comes first
+        // (e.g. a symbol inside an imported file is preferred over the definition of the imported file itself)
         self.definitions
             .iter()
-            .filter(|(ty, definition)| filter(ty) && definition.contains(&self.tree, &path, pos))
+            .filter(|(ty, _)| filter(ty))
+            .filter_map(|(ty, definition)| {
+                definition
+                    .smallest_span_containing(&self.tree, &path, pos)
+                    .map(|span| {
+                        let tie_breaker = match ty {
+                            DefinitionType::Filename(path) => (0, path.clone()),
+                            DefinitionType::Symbol(nx) => (1 + nx.index(), PathBuf::new()),
+                        };
+                        ((span.len(), span, tie_breaker), (ty, definition))
+                    })
+            })
+            .sorted_by(|(a, _), (b, _)| a.cmp(b))
+            .map(|(_, result)| result)
             .collect()
     }
 
